@@ -1,10 +1,10 @@
-"""C11 -- every privileged action requires its permission; non-members hold none.
+"""C14 -- every member's view of the user list converges to the true membership.
 
-Model: Signalling.tla (one action per handled client message, all membership states incl. 'join refused', every stimulus kind,
-token creation) folded through SigMonitor: an unauthorised or spoofed stimulus has no effect beyond a refusal reply to its sender
-(C11), tokens are created only within the creator's rights (A3); exhaustive for 3 clients x 2 groups up to 3 stimuli.
-Conformance: TLC-simulated stimuli sequences + regression behaviours against the real server (child process, real websockets),
-judged by the same monitor (Trace_Signalling)."""
+Model: Signalling.tla folded through SigMonitor (user events only to members, no duplicate add / unknown delete, no cross-group
+leak, views = membership at quiescence); exhaustive for 3 clients x 2 groups up to 3 stimuli.
+Conformance: TLC-simulated stimuli sequences + regression behaviours against the real server (Trace_Signalling); at the library
+level the real group package with fake clients that rebuild their views: free-running racing rounds and forced schedules (the
+delivering goroutine stopped at one delivery while another lifecycle operation runs), judged by Trace_Group."""
 import shutil
 import common as C
 import sig
